@@ -4,6 +4,7 @@ CONSTANTS
   Bodies <- BodiesH
   Modes <- AllModes
   ValueChoices <- DefaultValues
+  Ends <- OneEnd
   Seconds <- NoSecond
   TickMs <- Ticks1
   MaxTicks = 2
